@@ -53,6 +53,31 @@ class InjectedOSError(OSError):
         self.tag = tag
 
 
+class InjectedBrokenPipe(BrokenPipeError):
+    def __init__(self, tag):
+        super().__init__(32, tag)
+        self.tag = tag
+
+
+class InjectedTimeout(TimeoutError):
+    def __init__(self, tag):
+        super().__init__(tag)
+        self.tag = tag
+
+
+def injected(f, tag, default=None):
+    """The exception object for fault spec ``f`` (key 'exc' picks the class:
+    a destination can fail with EPIPE or a timeout, a callback with OSError)."""
+    kind = (f or {}).get('exc')
+    if kind == 'brokenpipe':
+        return InjectedBrokenPipe(tag)
+    if kind == 'timeout':
+        return InjectedTimeout(tag)
+    if kind == 'oserror':
+        return InjectedOSError(tag)
+    return (default or InjectedError)(tag)
+
+
 # ---------------------------------------------------------------------------
 class World:
     def __init__(self, sc, chooser, max_steps=20000):
@@ -266,6 +291,8 @@ class World:
                 fobj = path
             elif src == 'seekable':
                 fobj = SeekableSource(self, x, b'\xfe' * p0 + data, p0)
+            elif src == 'seekable-noattr':
+                fobj = BareSeekableSource(self, x, b'\xfe' * p0 + data, p0)
             else:
                 fobj = NonSeekableSource(self, x, data, t.get('src_reads'))
             def _call_upload():
@@ -401,7 +428,8 @@ def exc_tag(e):
     if isinstance(e, ClientError):
         msg = e.response.get('Error', {}).get('Message', '')
         return f"s3:{e.response.get('Error', {}).get('Code')}:{msg}"
-    if isinstance(e, (InjectedError, InjectedOSError)):
+    if isinstance(e, (InjectedError, InjectedOSError)) or (
+            getattr(e, 'tag', None) and isinstance(e, (BrokenPipeError, TimeoutError))):
         return 'inj:' + e.tag
     if isinstance(e, FatalError):
         return 'fatal:' + str(e)
@@ -449,7 +477,7 @@ class RecordingSubscriber:
             if f:
                 tag = f.get('tag', f'CBQ{self.x}')
                 w.emit('FaultInjected', on='on_queued', tag=tag, x=self.x)
-                raise InjectedError(tag)
+                raise injected(f, tag)
         finally:
             w.emit('CbEnd', cb='queued', x=self.x, sub=self.idx)
 
@@ -463,7 +491,7 @@ class RecordingSubscriber:
             if f:
                 tag = f.get('tag', f'CBP{self.x}')
                 w.emit('FaultInjected', on='on_progress', tag=tag, x=self.x)
-                raise InjectedError(tag)
+                raise injected(f, tag)
         finally:
             w.emit('CbEnd', cb='progress', x=self.x, sub=self.idx)
 
@@ -545,6 +573,26 @@ class SeekableSource:
         self.w.emit('SrcClose', x=self.x)
 
 
+class BareSeekableSource:
+    """A hand-written file-like wrapper: read/seek/tell/close only (no
+    seekable()/readable() methods)."""
+
+    def __init__(self, world, x, data, p0):
+        self._s = SeekableSource(world, x, data, p0)
+
+    def read(self, n=-1):
+        return self._s.read(n)
+
+    def seek(self, where, whence=0):
+        return self._s.seek(where, whence)
+
+    def tell(self):
+        return self._s.tell()
+
+    def close(self):
+        return self._s.close()
+
+
 class NonSeekableSource:
     def __init__(self, world, x, data, reads=None):
         self.w = world
@@ -604,7 +652,7 @@ class SeekableDest:
             tag = f.get('tag', f'DST{self.x}')
             w.emit('FaultInjected', on='dst_write', tag=tag, x=self.x)
             w.emit('DstWriteEnd', x=self.x, ok=False)
-            raise InjectedOSError(tag)
+            raise injected(f, tag, InjectedOSError)
         self._b.write(data)
         loc = fakes3.locate(w.xinfo[self.x]['data'], data)
         w.emit('DstWriteEnd', x=self.x, ok=True, off=pos, len=len(data),
@@ -630,7 +678,7 @@ class NonSeekableDest:
             tag = f.get('tag', f'DST{self.x}')
             w.emit('FaultInjected', on='dst_write', tag=tag, x=self.x)
             w.emit('DstWriteEnd', x=self.x, ok=False)
-            raise InjectedOSError(tag)
+            raise injected(f, tag, InjectedOSError)
         loc = fakes3.locate(w.xinfo[self.x]['data'], data)
         w.emit('DstWriteEnd', x=self.x, ok=True, off=self._n, len=len(data),
                src=(loc[0] if loc else -1))
@@ -662,7 +710,7 @@ class FileProxy:
             tag = f.get('tag', f'FSW{self.x}')
             w.emit('FaultInjected', on='fs_write', tag=tag, x=self.x)
             w.emit('FsWriteEnd', x=self.x, ok=False)
-            raise InjectedOSError(tag)
+            raise injected(f, tag, InjectedOSError)
         self._f.write(data)
         self._f.flush()
         src = -1
